@@ -22,13 +22,14 @@ OWNER = {
 }
 ALSO = {"C11": {"Raised"}, "C16": {"Raised"}, "C12": set()}
 
-CONSTS = {"MaxStreams": 9, "NDatasets": 2, "MaxPending": 3, "CleanInPlace": "FALSE", "QmdReplace": "FALSE"}
+CONSTS = {"MaxStreams": 9, "NDatasets": 2, "MaxPending": 3, "CleanInPlace": "FALSE", "QmdReplace": "FALSE",
+          "ChainOnly": "FALSE"}
 
 PLANS = {
     # focus, exhaustive history length, cap on exhaustive histories, (#random walks, depth), MC bound
-    "C11": {"quick": ("imm", 4, 9000, (1500, 8), 5), "thorough": ("imm", 5, 120000, (30000, 10), 6)},
-    "C12": {"quick": ("exec", 4, 9000, (1500, 9), 5), "thorough": ("exec", 5, 120000, (30000, 12), 6)},
-    "C16": {"quick": ("qmd", 4, 9000, (1500, 8), 5), "thorough": ("qmd", 5, 120000, (30000, 10), 6)},
+    "C11": {"quick": ("imm", 4, 6000, (1500, 8), 5), "thorough": ("imm", 5, 120000, (30000, 10), 6)},
+    "C12": {"quick": ("exec", 4, 6000, (1500, 9), 5), "thorough": ("exec", 5, 120000, (30000, 12), 6)},
+    "C16": {"quick": ("qmd", 4, 6000, (1500, 8), 5), "thorough": ("qmd", 5, 120000, (30000, 10), 6)},
 }
 
 
@@ -43,11 +44,13 @@ def model_check(prop, focus, steps):
     return tlcrun.run("Streams", cfg, d, workers=16, coverage=False)
 
 
-def gen_histories(prop, name, focus, steps, simulate=None, extra_args=()):
+def gen_histories(prop, name, focus, steps, simulate=None, extra_args=(), chain_only=False):
     d = tlcrun.fresh_dir(common.outdir(prop, "gen_" + name))
     cfg = os.path.join(d, "gen.cfg")
     consts = dict(CONSTS)
     consts.update({"MaxSteps": steps, "Focus": '"%s"' % focus})
+    if chain_only:
+        consts.update({"ChainOnly": "TRUE", "NDatasets": 1, "MaxPending": 2})
     tlcrun.write_cfg(cfg, constants=consts, invariants=["Export"])
     out = os.path.join(d, "hist.ndjson")
     st = tlcrun.run("GenStreams", cfg, d, env={"OUT_FILE": out}, workers=16, simulate=simulate,
@@ -64,6 +67,22 @@ def gen_histories(prop, name, focus, steps, simulate=None, extra_args=()):
     return hs, st
 
 
+def hist_features(h):
+    """which kinds of steps a history has and in which order classes of steps first occur"""
+    feats = []
+    for a in h:
+        f = a["act"]
+        if f == "Derive":
+            f += ":" + a["op"]
+        elif f == "MetaData":
+            f += ":empty" if not a["t"]["a"] else ":nonempty"
+        elif f == "ValueStart":
+            f += ":" + a["op"]
+        if f not in feats:
+            feats.append(f)
+    return tuple(feats)
+
+
 def interesting(prop, h):
     acts = [a["act"] for a in h]
     if prop == "C11":   # a derive or execute after which older streams are re-inspected
@@ -71,7 +90,7 @@ def interesting(prop, h):
     if prop == "C12":
         return "ValueStart" in acts
     if prop == "C16":
-        return "QMetaData" in acts
+        return "QMetaData" in acts or "QMetaData2" in acts
     return True
 
 
@@ -88,13 +107,22 @@ def run(prop, tier):
     rep.add_tlc(st)
     total = len(hs)
     hs = [h for h in hs if interesting(prop, h)]
-    hs = common.subsample(hs, cap, salt=prop + "bfs")
+    hs = common.subsample_stratified(hs, cap, salt=prop + "bfs", key=hist_features)
     fam = {"bfs": {"steps": steps, "generated": total, "replayed": len(hs), "exhaustive": len(hs) == total}}
+    # fluent chains (every derivation applies to the newest stream; executions at any point), two steps deeper
+    ch, st = gen_histories(prop, "chain", focus, steps + 1, chain_only=True)
+    rep.add_tlc(st)
+    ctotal = len(ch)
+    ch = common.subsample_stratified([h for h in ch if interesting(prop, h)], cap // 2, salt=prop + "chain",
+                                     key=hist_features)
+    fam["chains"] = {"steps": steps + 1, "generated": ctotal, "replayed": len(ch), "exhaustive": len(ch) == ctotal}
+    hs = hs + ch
     if nrand:
         rs, st = gen_histories(prop, "rand", focus, rdepth, simulate=f"num={max(1, nrand // 160)}",
                                extra_args=["-depth", str(rdepth + 1), "-seed", str(common.seed() + 3)])
         rep.add_tlc(st)
-        rs = common.subsample([h for h in rs if interesting(prop, h)], nrand, salt=prop + "rand")
+        rs = common.subsample_stratified([h for h in rs if interesting(prop, h)], nrand, salt=prop + "rand",
+                                         key=hist_features)
         fam["random"] = {"steps": rdepth, "generated": len(rs), "replayed": len(rs), "exhaustive": False}
         hs = hs + rs
     recs = replay_streams.run_many(hs)
